@@ -983,6 +983,40 @@ def sweep_empty_after():
     return out
 
 
+def sweep_timeout_slots():
+    """slot-holding jobs overrun their hard limit; their workers (process-group leaders and ordinary
+    ones) die at TERM or linger until KILL; a late result may still arrive; then passes: at the quiet
+    end every slot is back (cfg marker `quiet_end`, judged by mon_C10_quiet_end)"""
+    out = []
+    for n in (1, 2, 3):
+        for lingers in (False, True):
+            for late in (False, True):
+                ev = [['apply', None, 3, None, True] for _ in range(n)] + [['ack', k, None, k] for k in range(n)]
+                ev += [['advance', 4], ['scan', lingers], ['tick']]
+                if late:
+                    ev += [['ready', k, None, True, 5] for k in range(n)]
+                ev += [['advance', 1], ['tick'], ['apply', None, None, None, True], ['ack', n, None, n], ['ready', n, None, True, 9], ['tick']]
+                out.append(dict(cfg=dict(n=n, putlocks=True, hard=10, enable_timeouts=True, max_restarts=100, quiet_end=True), events=ev))
+    return out
+
+
+def mon_C10_quiet_end(case, obs):
+    """histories built to end quietly (every job resolved, every dead worker reaped): all slots are back"""
+    if not case['cfg'].get('quiet_end') or not obs:
+        return []
+    o = obs[-1]
+    if o['exc'] or any(not j['ready'] for j in o['jobs']):
+        return []
+    evs = [e[0] for e in case['events'][:len(obs)]]
+    last_disturbance = max([i for i, k in enumerate(evs) if k in ('scan', 'exit', 'terminate_job', 'shrink')] or [-1])
+    if evs[-1] != 'tick' or evs[last_disturbance + 1:].count('tick') < 2:
+        return []          # not (or no longer, after minimisation) a quiet end: two passes after the last disturbance
+    if o['sem'][0] != o['sem'][1]:
+        return [('C10:slot-never-comes-back', 'every job is resolved and the supervision passes have run, yet %d of %d slots are free '
+                 '(workers in the pool: %s)' % (o['sem'][0], o['sem'][1], [w[0] for w in o['workers']]))]
+    return []
+
+
 def sweep_shutdown_loss():
     """a worker dies with a job while the pool is closed (before or after close()); the result
     handler's drain loop (join_shutdown) is what turns the expired marker into a failure, also when no
@@ -1083,7 +1117,7 @@ def mon_C01_unresolved(case, obs):
 SWEEPS = dict(C01=lambda: sweep_loss()[::3] + sweep_limits()[::3] + sweep_terminate_job() + sweep_late_result()[::2] + sweep_two_handles(), C04=lambda: sweep_loss() + sweep_terminate_job() + sweep_shutdown_loss() + sweep_late_result() + sweep_two_handles(), C05=sweep_limits, C06=sweep_limits,
               C07=lambda: sweep_close_in_pass() + sweep_shutdown_loss() + sweep_empty_after(),
               C08=lambda: sweep_loss()[::6] + sweep_terminate_job()[::2] + sweep_close_in_pass()[::3], C09=lambda: sweep_loss()[::6] + sweep_resize() + sweep_close_in_pass()[::2],
-              C10=sweep_resize)
+              C10=lambda: sweep_resize() + sweep_timeout_slots())
 
 
 def pool_check(res, pid, n, focus=None, cfg=None, length=(5, 45), extra_cases=()):
@@ -1529,6 +1563,7 @@ def mon_C01_unsent(case, obs):
 
 
 MONITORS['C01'].append(mon_C01_unsent)
+MONITORS['C10'].append(mon_C10_quiet_end)
 MONITORS['C01'].append(mon_C01_result_dropped)
 MONITORS['C01'].append(mon_C01_foreign_loss)
 MONITORS['C01'].append(mon_C01_terminated)
